@@ -181,7 +181,9 @@ where
     T: CBOREncodable,
 {
     fn into_envelope(self) -> Envelope {
-        Envelope::new(CBOR::from(self))
+        // Encode as a dCBOR set (elements in canonical order) so that equal
+        // sets produce equal envelopes regardless of hash iteration order.
+        Envelope::new(CBOR::from(Set::from(self)))
     }
 }
 
